@@ -133,7 +133,11 @@ def oracle_rejections(R, tier, seed):
     must_raise = [
         ("ground effect without symmetry", setup(lambda: AeroPoint(surfaces=[aero_s(fullm, False, True)]))),
         ("even num_y requested from the mesh generator", lambda: generate_mesh({"num_x": 2, "num_y": 6, "wing_type": "rect", "symmetry": True})),
+        ("even num_y requested from the mesh generator, full span, rect", lambda: generate_mesh({"num_x": 2, "num_y": 6, "wing_type": "rect", "symmetry": False})),
+        ("even num_y requested from the mesh generator, full span, CRM", lambda: generate_mesh({"num_x": 2, "num_y": 4, "wing_type": "CRM", "symmetry": False})),
+        ("even num_y requested from the mesh generator, CRM variant", lambda: generate_mesh({"num_x": 3, "num_y": 8, "wing_type": "CRM:alpha_2.75", "symmetry": True})),
         ("unknown wing type", lambda: generate_mesh({"num_x": 2, "num_y": 5, "wing_type": "elliptical", "symmetry": True})),
+        ("unknown wing type, full span", lambda: generate_mesh({"num_x": 2, "num_y": 5, "wing_type": "elliptical", "symmetry": False})),
         ("unknown structural model type (SpatialBeamAlone)", setup(lambda: SpatialBeamAlone(surface=dict(gen.tube_surface(mesh), fem_model_type="shell")))),
         ("unknown structural model type (AerostructGeometry)", setup(lambda: AerostructGeometry(surface=dict(gen.tube_surface(mesh), fem_model_type="shell")))),
         ("only the skin thickness distribution (SpatialBeamAlone)", setup(lambda: SpatialBeamAlone(surface=wb(skin_thickness_cp=np.array([0.01, 0.02]))))),
